@@ -119,8 +119,19 @@ def r1(ctx):
         ixs = estr(unwrap(b['e'])['i']) if b.get('k') == 'addr' and unwrap(b['e']).get('k') == 'idx' else None
         l = unwrap(leng[0].rhs)
         ok = ixs is not None and l.get('k') == 'bin' and l['op'] == '-' and estr(l['r']) == ixs and field_is(l['l'], 'len', 'ipc_auth_data')
-    ctx.check('R1', 'recv_msghdr:remaining=len-processed', ok, leng[0] if leng else h, 'the handshake receive asks for len - processed bytes at offset processed',
-              'the handshake receive length is not len - processed')
+    why = 'the handshake receive is not "len - processed bytes at &bytes[processed]"'
+    if ok:
+        # the offset counts bytes: the indexed object is a byte pointer (an offset added to a pointer to the record is scaled by its size)
+        barr = unwrap(b['e'])['b']
+        ty = None
+        if unwrap(barr).get('k') == 'var':
+            ty = ([ev.d.get('ty') for ev in h.events('DECL') if ev.d['var'] == unwrap(barr)['n']] + [pp.get('ty') for pp in h.params if pp['n'] == unwrap(barr)['n']] + [None])[0]
+        elif barr.get('k') == 'cast':
+            ty = barr.get('ty')
+        ok = ty is not None and ty.replace('const ', '').strip() in ('char *', 'unsigned char *', 'signed char *', 'uint8_t *', 'int8_t *')
+        why = 'the receive position is indexed through %s, not through a byte pointer: the offset "processed" is scaled by the element size' % ty
+    ctx.check('R1', 'recv_msghdr:remaining=len-processed', ok, leng[0] if leng else h, 'the handshake receive asks for len - processed bytes at byte offset processed',
+              why + ' - the second piece of a handshake that arrives in pieces is written outside the record')
     # len is only written by init_ipc_auth_data from its parameter; callers pass sizeof(record) <= sizeof(data->msg)
     ws = prog.writers('len', 'ipc_auth_data')
     okw = bool(ws) and all(fn.name == 'init_ipc_auth_data' for (fn, _e) in ws)
